@@ -351,6 +351,8 @@ func winOperands(specs []actorSpec, core bool) {
 		sp.dst = spellAll(true, sp.dst)
 		sp.sub = spellAll(true, sp.sub)
 		sp.rootDirs = spellAll(true, sp.rootDirs)
+		sp.fresh = spellAll(true, sp.fresh)
+		sp.tmp = spellAll(true, sp.tmp)
 
 		add := func(abs, src, dst, sub []string) {
 			sp.abs = append(sp.abs, abs...)
